@@ -361,6 +361,21 @@ def install_helpers(env, scratch_read, kind, src):
         env.helpers["get_nearest_time"] = mk_nearest("get_nearest_time", 0, 0, 1, 1)
     env.helpers["T::zero"] = lambda e, args, node: Val(R(0), "f64")
 
+    def resolve(name):
+        """free functions of the same file are inlined (parameters bound by position)"""
+        if "::" in name or not name.isidentifier():
+            return None
+        try:
+            sig, body, l0, _ = rp.find_fn(src, name, None)
+        except rp.ParseError:
+            return None
+        if "self" in sig.split("(", 1)[1].split(")")[0]:
+            return None
+        import re as _re
+        params = _re.findall(r"([a-z_][a-z0-9_]*)\s*:", sig.split("(", 1)[1])
+        return params, body
+    env.resolve_fn = resolve
+
 
 # ------------------------------------------------------------------------------------------------
 class VC:
@@ -974,6 +989,37 @@ def estimate_vcs(read, T):
     return obs
 
 
+def delay_vcs(read, T):
+    """C14 (polynomial resamplers): output_delay() is floor(L * current ratio / 2), the lag of a stream whose first frame is
+    evaluated at input time -L/2 + 1/ratio (initial position -L/2: constructor / reset obligations) with frames 1/ratio apart."""
+    kind = KINDS[T]
+    if kind.sinc:
+        return []
+    src = read(kind.file)
+    st = State(kind, src, ramp=True)
+    env = st.env
+    install_helpers(env, read, kind, src)
+    sig, body, l0, _ = rp.find_fn(src, "output_delay", ["Resampler", "for " + kind.T + "<"])
+    vc = VC("%s.output_delay" % T, T + "::output_delay")
+    vc.witness = st.witness()
+    vc.assume(st.wf_cfg() + st.wf_ratio())
+    if body[2] is None or body[1]:
+        raise Undecided("output_delay is not a single expression")
+    val = env.ev(body[2])
+    vc.take_side(env)
+    r = st.v("resample_ratio")
+    Lr = z3.ToReal(st.L)
+    # first-frame instant -L/2 + 1/r, frames 1/r apart  =>  an event at input n is centred at output (n + L/2) r - 1;
+    # the report must be within max(1, r) + 1 output frames of that lag
+    lag = Lr / 2 * r - 1
+    tol = z3.If(r >= 1, r, R(1)) + 1
+    vc.goal("C14 output_delay() is within max(1,ratio)+1 frames of the true lag (L/2)*ratio - 1 of the evaluation instants",
+            z3.And(z3.ToReal(val.t) - lag <= tol, z3.ToReal(val.t) - lag >= -tol))
+    vc.goal("C14 output_delay() == floor(L * current ratio / 2) (rounding of the product aside)",
+            z3.And(z3.ToReal(val.t) <= Lr * r / 2 * (1 + z3.Q(1, 2 ** 40)), z3.ToReal(val.t) >= Lr * r / 2 * (1 - z3.Q(1, 2 ** 40)) - 1))
+    return vc.discharge(env)
+
+
 def wf_pos_out(st, D):
     v, L = st.v, st.L
     # D: bound of the accumulated f32 rounding error of the input-need formula (3 conversions, 3 operations on values
@@ -1277,7 +1323,8 @@ def _run_type(args):
     import os
     read = lambda f: open(os.path.join(root, "src", f)).read()
     out = []
-    for part, fn in (("process", process_vcs), ("process", postblock_vcs), ("process", estimate_vcs), ("setters", setter_vcs), ("reset", reset_vcs)):
+    for part, fn in (("process", process_vcs), ("process", postblock_vcs), ("process", estimate_vcs), ("setters", setter_vcs), ("reset", reset_vcs),
+                     ("delay", delay_vcs)):
         if part not in what:
             continue
         try:
